@@ -1,0 +1,15 @@
+//go:build verif
+// +build verif
+
+// Package c14 re-exports what the C14 harness needs from internal/core.
+package c14
+
+import (
+	"gopkg.in/src-d/hercules.v10/internal/core"
+)
+
+// SetPlanPrinter redirects the plan dump of Pipeline.Run (DumpPlan) and returns the previous sink.
+var SetPlanPrinter = core.VerifC14SetPlanPrinter
+
+// ConfigHibernationDistance is core.ConfigPipelineHibernationDistance.
+const ConfigHibernationDistance = core.VerifC14ConfigHibernationDistance
